@@ -21,6 +21,7 @@ package main
 import (
 	"bytes"
 	"fmt"
+	"os"
 	"runtime"
 	"strconv"
 	"sync"
@@ -159,6 +160,11 @@ func waitState(st string) bool {
 	}
 	return false
 }
+
+// writerMutexIsWait: with the candidate patch fixes/C04_1_target_write_lock.diff a writer
+// waits on the target's write lock while another writer of the target is parked in the feed
+// callback; set together with C04Check.fixed_C04_1 (DEFECT C04_1).
+var writerMutexIsWait = os.Getenv("VERIF_C04_FIXED_1") != ""
 
 // transient reports a state an unscheduled goroutine passes through on its
 // way to its first hook.
@@ -356,7 +362,8 @@ func (s *Sched) Step(t *Thread) []Event {
 					}
 					continue
 				}
-				if !waitState(states[x.goid]) {
+				if !waitState(states[x.goid]) &&
+					!(writerMutexIsWait && x.Name != "" && x.Name[0] == 'w' && states[x.goid] == "sync.Mutex.Lock") {
 					quiet = false
 				}
 			}
@@ -397,7 +404,7 @@ func (s *Sched) Step(t *Thread) []Event {
 		}
 		// a thread woken from a runtime wait is running: it is not blocked any more
 		for _, x := range s.threads() {
-			if x.status == stBlocked && !waitState(states[x.goid]) {
+			if x.status == stBlocked && !waitState(states[x.goid]) && states[x.goid] != "sync.Mutex.Lock" {
 				x.status = stRunning
 			}
 		}
